@@ -56,12 +56,47 @@ func variadicElems(sl ssa.Value) []ssa.Value {
 // isReadSlice: v == buf[:n] with buf the argument and n result #0 of read.
 func (w *World) isReadSlice(v ssa.Value, read *ssa.Call) bool {
 	v = stripIface(v)
-	sl, ok := v.(*ssa.Slice)
+	// (the slice may have been made where the read is and travel in a by-value struct)
+	if r := stripIface(w.resolveLoad(v)); r != v {
+		if _, isP := r.(*ssa.Parameter); !isP {
+			v = r
+		}
+	}
+	sl, ok := under(v).(*ssa.Slice)
 	if !ok || sl.Low != nil || sl.Max != nil {
 		return false
 	}
 	hc, hi := callOf(sl.High)
-	return hc == read && hi == 0 && w.sameKey(sl.X, read.Call.Args[0])
+	if hc != read {
+		hc, hi = w.realCallOf(sl.High)
+	}
+	if hc == read && hi == 0 && w.sameKey(sl.X, read.Call.Args[0]) {
+		return true
+	}
+	// a slice made inside the stage that did the read: compare there
+	if vv, isV := v.(*virtVal); isV && vv.orig != nil {
+		if sl2, ok := vv.orig.(*ssa.Slice); ok && sl2.Low == nil && sl2.Max == nil {
+			hc2, hi2 := callOf(sl2.High)
+			return hc2 == read && hi2 == 0 && w.sameKey(sl2.X, read.Call.Args[0])
+		}
+	}
+	return false
+}
+
+// realCallOf: callOf, looking through values expressed at a helper's call site back to the
+// helper's own call instruction.
+func (w *World) realCallOf(v ssa.Value) (*ssa.Call, int) {
+	v = stripIface(w.resolveLoad(v))
+	if c, i := callOf(v); c != nil {
+		if rc, ok := w.realOf(c).(*ssa.Call); ok {
+			return rc, i
+		}
+		return c, i
+	}
+	if c, i := callOf(under(v)); c != nil {
+		return c, i
+	}
+	return nil, -1
 }
 
 func runC05(c *Ctx) {
@@ -85,9 +120,11 @@ func runC05(c *Ctx) {
 		pos := w.instrPos(in)
 		// the read of this iteration
 		var read *ssa.Call
-		w.eachInstr(pch, func(in2 ssa.Instruction) {
+		w.eachInstrDeep(pch, func(in2 ssa.Instruction) {
 			if c2, ok := in2.(*ssa.Call); ok && c2.Call.IsInvoke() && c2.Call.Method.Name() == "ReadFrom" {
-				read = c2
+				if _, f, isL := fieldLoad(c2.Call.Value); isL && f.Name() == "relayPacketConn" {
+					read = c2
+				}
 			}
 		})
 		if read == nil {
@@ -119,7 +156,7 @@ func runC05(c *Ctx) {
 			}
 			num := lit.fields["Number"]
 			g := w.guardedBy(in, getChanA, -1, "nonnil", func(g *ssa.Call) bool {
-				sc, si := callOf(g.Call.Args[1])
+				sc, si := w.realCallOf(g.Call.Args[1])
 				return sc == read && si == 1
 			})
 			if g != nil && num != nil && w.isFieldLoadOf(num, g, "Number") {
@@ -162,7 +199,7 @@ func runC05(c *Ctx) {
 					// ib = assert[*net.UDPAddr](src)#0
 					if ex, isEx := ib.(*ssa.Extract); isEx {
 						if ta, isTA := ex.Tuple.(*ssa.TypeAssert); isTA {
-							sc, si := callOf(ta.X)
+							sc, si := w.realCallOf(ta.X)
 							if sc == read && si == 1 {
 								okPeer = true
 							}
